@@ -29,16 +29,24 @@ def run(chk, replay=None):
     shapes = os.path.join(w, "shapes.ndjson")
     nshapes, r = core.gen_shapes("wordarith/WordShapes.tla", "WordShapes.cfg", shapes)
     chk.add_mc(r)
-    # (V) real code
+    # (V) real code; the thorough tier repeats the run on a build with debug assertions and overflow checks
+    # (the configuration the repository's own tests run under): a panic there is an outcome, judged by the spec
     trace = os.path.join(w, "trace.ndjson")
-    core.run_driver(["c08", "--seed", chk.seed, "--tier", chk.tier, "--shapes", shapes], trace, timeout=1700)
-    if replay:
-        core.replay_filter(trace, replay)
-    res = core.validate_trace("wordarith/WordArithTrace.tla", "WordArithTrace.cfg", trace, timeout=1700,
-                              weight=lambda e: HEAVY.get(e["op"], 5))
-    chk.add_tv(res)
-    for n in res["notes"][:20]:
-        chk.notes.append({"note": n})
+    res = None
+    for profile in (["release", "relcheck"] if thorough else ["release"]):
+        tr = trace if profile == "release" else os.path.join(w, "trace_relcheck.ndjson")
+        core.run_driver(["c08", "--seed", chk.seed, "--tier", chk.tier, "--shapes", shapes], tr, timeout=1700, profile=profile)
+        if replay:
+            core.replay_filter(tr, replay)
+        r = core.validate_trace("wordarith/WordArithTrace.tla", "WordArithTrace.cfg", tr, timeout=1700,
+                                weight=lambda e: HEAVY.get(e["op"], 5), tag="WordArithTrace-" + profile)
+        chk.add_tv(r)
+        for n in r["notes"][:20]:
+            chk.notes.append({"profile": profile, "note": n})
+        if res is None:
+            res = r
+        else:
+            res["rejects"] = res["rejects"] + r["rejects"]
     evs = core.read_ndjson(trace)
     calls = 0
     ops = {}
